@@ -76,6 +76,14 @@ pub fn tree_entries(t: &Value, out: &mut Vec<Value>) {
     tree_entries(&a[4], out);
 }
 
+/// the accounting <<slots, free, counter>> of the code against the specification's (see compare())
+pub fn acct_ok(got: &Value, exp: &Value, dr: i64) -> bool {
+    let g = |v: &Value, i: usize| v[i].as_i64().unwrap_or(-1);
+    g(got, 0) <= g(exp, 0)
+        && (g(got, 0) != g(exp, 0) || g(got, 1) == g(exp, 1))
+        && (g(got, 2) == g(exp, 2) || g(got, 2) == g(exp, 2) - dr)
+}
+
 /// Is the outcome of a retain whose predicate panicked the one C20 demands for the calls the code made?
 /// `calls`: the prefixes the predicate saw (the last one is the call that panicked).
 fn retain_panic_order_free(row: &Value, calls: &Value, exp_calls: &Value, pre_tree: &Value, post_tree: &Value) -> bool {
@@ -212,6 +220,15 @@ pub fn compare(row: &Value, ctx: &Ctx, st: &Step, is_set: bool, dr: i64, pre_tre
     // asked in another order than the specification's machine, the outcome is judged on the observed calls.
     let order_free = act == "Retain" && exp_pan && st.pan && got_ret != exp_ret
         && retain_panic_order_free(row, &got_ret, &exp_ret, pre_tree, &st.tree);
+    if act == "Len" && dr != 0 && !exp_pan {
+        // finding F4 explains a counter that is off by `dr`; a len() that reports the true number of entries
+        // (the finding repaired, or len() not derived from the counter) is what C04 demands
+        if let Some(e) = exp_ret.get(0).and_then(|x| x.as_i64()) {
+            if got_ret == json!([e - dr]) {
+                exp_ret = got_ret.clone();
+            }
+        }
+    }
     let st_ret = &got_ret;
     if order_free {
     } else if st.pan != exp_pan {
@@ -251,10 +268,13 @@ pub fn compare(row: &Value, ctx: &Ctx, st: &Step, is_set: bool, dr: i64, pre_tre
     let x = &row["x"];
     // the accounting is a function of the shape: compared only where the shape is the expected one
     let same_shape = shape(&exp_tree) == shape(&st.tree);
-    if same_shape && st.acct[0] != x[0] {
+    // C16 bounds the storage by the largest number of nodes ever needed at one time, which is exactly the
+    // specification's arena length: the code may hold fewer slots (it may give trailing free slots back), never
+    // more.  With equal lengths and equal shape the number of free slots is determined.
+    if same_shape && st.acct[0].as_u64() > x[0].as_u64() {
         mm.push(("alen".into(), x[0].clone(), st.acct[0].clone()));
     }
-    if same_shape && st.acct[1] != x[1] {
+    if same_shape && st.acct[0] == x[0] && st.acct[1] != x[1] {
         mm.push(("nfree".into(), x[1].clone(), st.acct[1].clone()));
     }
     // C16, on the code's own observations: the arena grows only when no slot is free (clear excepted)
@@ -262,7 +282,7 @@ pub fn compare(row: &Value, ctx: &Ctx, st: &Step, is_set: bool, dr: i64, pre_tre
     if st.partition.is_none() && !cleared {
         let alen = st.acct[0].as_u64().unwrap_or(0);
         let want = pre_alen.max(st.reach as u64);
-        if alen != want {
+        if alen > want {
             mm.push(("grow".into(), json!(want), json!(alen)));
         }
     }
@@ -271,12 +291,15 @@ pub fn compare(row: &Value, ctx: &Ctx, st: &Step, is_set: bool, dr: i64, pre_tre
     let (mut ee2, mut eg2) = (vec![], vec![]);
     tree_entries(&exp_tree, &mut ee2);
     tree_entries(&st.tree, &mut eg2);
-    if ee2.len() == eg2.len() && st.acct[2] != x[2] {
+    // (the specification's counter drifts by `dr` as finding F4 explains; the true number of entries is right too)
+    let true_count = json!(x[2].as_i64().unwrap_or(0) - dr);
+    if ee2.len() == eg2.len() && st.acct[2] != x[2] && st.acct[2] != true_count {
         mm.push(("count".into(), x[2].clone(), st.acct[2].clone()));
     }
     // observation-relative facets, independent of the table
     // `dr` is the drift the specification attributes to the listed finding F4 (0 otherwise)
-    let exp_len = st.iter_count as i64 + dr;
+    // (the true number of entries is always right; the drifted value only as the listed finding explains it)
+    let exp_len = if st.len as i64 == st.iter_count as i64 { st.iter_count as i64 } else { st.iter_count as i64 + dr };
     if st.len as i64 != exp_len || st.is_empty != (exp_len == 0) {
         mm.push((
             "len_vs_iter".into(),
@@ -329,7 +352,7 @@ pub fn replay_rows<P: PT, C: Coll<P>>(
     let mut cache: HashMap<String, Option<C>> = HashMap::new();
     let mut unsupported_paths: std::collections::HashSet<String> = Default::default();
     // state rows: path -> (tree, accounting) the path must produce
-    let mut pre: HashMap<String, (Value, Value, i64)> = HashMap::new();
+    let mut pre: HashMap<String, (Value, Value, i64, bool)> = HashMap::new();
     let mut line = String::new();
     loop {
         line.clear();
@@ -345,7 +368,7 @@ pub fn replay_rows<P: PT, C: Coll<P>>(
             }
             pre.insert(
                 serde_json::to_string(s).unwrap(),
-                (row["f"].clone(), row["fx"].clone(), row["dr"].as_i64().unwrap_or(0)),
+                (row["f"].clone(), row["fx"].clone(), row["dr"].as_i64().unwrap_or(0), row["cn"].as_bool().unwrap_or(false)),
             );
             continue;
         }
@@ -354,7 +377,7 @@ pub fn replay_rows<P: PT, C: Coll<P>>(
         }
         rep.rows += 1;
         let key = serde_json::to_string(&row["h"]).unwrap();
-        let Some((f, fx, dr0)) = pre.get(&key) else {
+        let Some((f, fx, dr0, cn0)) = pre.get(&key) else {
             rep.no_state_row += 1;
             continue;
         };
@@ -379,12 +402,14 @@ pub fn replay_rows<P: PT, C: Coll<P>>(
                 continue;
             };
             // precondition: the replayed path really produced the state the row starts from
-            let ok = c.tree(ctx) == ctx.norm_tree(f) && acct(&c.snap()) == *fx;
+            // (accounting as C16 / C04 demand it: no more slots than the history ever needed; the counter as the
+            // specification has it, or the true number of entries where the listed drift is not present)
+            let ok = c.tree(ctx) == ctx.norm_tree(f) && acct_ok(&acct(&c.snap()), fx, *dr0);
             rep.states += 1;
             if !ok {
                 rep.mismatch_count += 1;
                 if rep.mismatches.len() < max_mismatch {
-                    rep.mismatches.push(json!({"kind": "pre", "h": row["h"], "e": {"a": "PathReplay"},
+                    rep.mismatches.push(json!({"kind": "pre", "h": row["h"], "e": {"a": "PathReplay"}, "row": {"cn": cn0, "dr": dr0},
                         "expected": {"t": ctx.norm_tree(f), "x": fx},
                         "got": {"t": c.tree(ctx), "x": acct(&c.snap())}}));
                 }
@@ -432,6 +457,17 @@ pub fn replay_rows<P: PT, C: Coll<P>>(
             continue;
         };
         let mut c = c0.clone();
+        if c.snap() != c0.snap() {
+            // clone() owes an equal, independent map (C19), not the same arena layout: where it differs, the
+            // state is rebuilt from its path so that the accounting facets are judged on what the path produced
+            match build_state::<P, C>(&row["h"], ctx) {
+                Some(x) => c = x,
+                None => {
+                    rep.skipped_unsupported += 1;
+                    continue;
+                }
+            }
+        }
         let Some(o) = apply::<P, C>(&mut c, &row["e"], ctx) else {
             rep.skipped_unsupported += 1;
             continue;
@@ -448,7 +484,8 @@ pub fn replay_rows<P: PT, C: Coll<P>>(
             }
         }
         let dr = row.get("dr").and_then(|d| d.as_i64()).unwrap_or(*dr0);
-        if dr != 0 {
+        if dr != 0 && st.len as i64 != st.iter_count as i64 {
+            // the listed finding F4 manifests on this row
             rep.drift_rows += 1;
         }
         if row.get("f").is_none() {
